@@ -179,3 +179,37 @@ def _dtype_stream(R: Run, BlockAssembler, rng):
                      {"blocks": [dt_s(d) for d in combo], "fill": repr(fill), "casting": rule},
                      f"extract with the dtype left to it refused one of its own blocks: {out}", sig=f"dt-cast-oracle|{rule}")
 
+    # ---- the VALUES numpy writes when an integer block is narrowed (reference semantics castInt; extract_narrowed_cells)
+    from .c04 import cell_vals, enc, ints
+
+    int_dts = [d for d in DTS if d.kind in "bui"]
+    edge = sorted({s_ * v + o for v in (0, 1, 127, 128, 255, 256, 32767, 32768, 65535, 65536, 2 ** 31, 2 ** 32, 2 ** 63 - 1)
+                   for s_ in (1, -1) for o in (-1, 0, 1) if -2 ** 63 <= s_ * v + o < 2 ** 63})
+    for d in int_dts + [np.dtype("float32")]:
+        for v in edge:
+            R.corr(f"c04 dt castv {dt_s(d)} {v}",
+                   lambda d=d, v=v: "N" if d.kind == "f" else str(int(np.array(v, dtype="int64").astype(d))), sig=f"dt-castv|{d.kind}")
+    for _ in range(R.pick(60, 600)):
+        chy = [rng.randint(1, 3) for _ in range(rng.randint(1, 3))]
+        chx = [rng.randint(1, 3) for _ in range(rng.randint(1, 2))]
+        keys = [(iy, ix) for iy in range(len(chy)) for ix in range(len(chx)) if rng.random() < 0.7]
+        m = rng.choice([300, 1000, 100000, 2 ** 40])
+        d = rng.choice(int_dts)
+        blocks = {k: (cell_vals(m, k, [], chy[k[0]], chx[k[1]], []) - m // 2).astype("int64") for k in keys}
+        NY, NX = sum(chy), sum(chx)
+        y0, x0 = rng.randint(0, NY - 1), rng.randint(0, NX - 1)
+        wy, wx = slice(y0, rng.randint(y0 + 1, NY)), slice(x0, rng.randint(x0 + 1, NX))
+
+        def f():
+            a = BlockAssembler(blocks, (tuple(chy), tuple(chx))) if keys else None
+            if a is None:
+                return None
+            xx = a.extract(0, dtype=d, casting="unsafe", roi=(wy, wx))
+            return f"{xx.shape[0]} {xx.shape[1]} {list_s([int(v) for v in xx.ravel()])}"
+
+        out = guarded(f)
+        if out is None:
+            continue
+        R.corr(f"c04 dt asmcast {ints(chy)} {ints(chx)} {list_s([f'{k[0]};{k[1]}' for k in keys])} {enc(wy)} {enc(wx)} {m} {dt_s(d)}",
+               lambda out=out: out, sig=f"dt-asmcast|{d.kind}{d.itemsize * 8}")
+
